@@ -1,4 +1,5 @@
 /* Correspondence harness for the s-expression reader (C20). */
+#define HARNESS_NOISE
 #include "common.h"
 
 #include <ufw/sx.h>
@@ -60,6 +61,17 @@ show_tree(FILE *f, const struct sx_node *n)
 static void
 harness_reset(void)
 {
+}
+
+static void
+harness_noise(void)
+{
+    /* other texts read in between, most of them rejected half-way */
+    static const char *junk[] = { "(a (b", "((((((", ") x", "#x", "(1 2 (3 #xZ", "(ok)", "((a) ((b" };
+    static unsigned k;
+    const char *s = junk[k++ % (sizeof junk / sizeof *junk)];
+    struct sx_parse_result r = sx_parse(s, strlen(s), 0);
+    sx_destroy(&r.node);
 }
 
 static void
